@@ -478,7 +478,8 @@ template<typename B>
 static void run_backend(mon::Rng& rng)
 {
   fill_table<B>();
-  exhaustive<B>(mon::tier(3, 4), 2, 3);
+  // depth 5 (20.5 million sequences) only for the model backend in the thorough tier
+  exhaustive<B>(mon::tier(3, std::is_same_v<B, VS> ? 5 : 4), 2, 3);
   random_histories<B>(mon::tier(60, 1500), mon::tier(60, 300), rng);
 }
 
